@@ -392,7 +392,8 @@ def main(out_path):
 
     # ---- read ------------------------------------------------------------------------------
     ss = region('read', r'\bF\s+read\s*\(\s*std::istream')
-    need(len(ss) == 7 and [s[0] for s in ss] == ['if', 'decl', 'decl', 'decl', 'if', 'if', 'return'], 'read')
+    need(len(ss) == 8 and [s[0] for s in ss] == ['if', 'decl', 'decl', 'decl', 'if', 'if', 'if', 'return'],
+         'read')
     o.fn('readCallsChunk', ss[0][1], 'read: `if (keep_reading) read_chunk(is);`', 'B', ['keep'])
     need(ss[2][2] == 'bufend' and ss[3][2] == 'ptr', 'read decls')
     o.fn('readBufend', ss[2][3], 'read: `bufend = s.data() + bufidx` (offset from s.data())', 'N', ['bufidx'])
@@ -403,9 +404,12 @@ def main(out_path):
     need(ss[4][3] is None and body_of(ss[4][2])[0][0] == 'throw', 'separator check')
     o.fn('readSepBad', ss[4][1], 'read: separator check (true = throw "unexpected character")', 'B',
          ['ptr', 'bufend', 'ptrCh', 'sep'])
-    th, el = body_of(ss[5][2]), body_of(ss[5][3]) if ss[5][3] is not None else None
+    need(ss[5][3] is None and body_of(ss[5][2])[0][0] == 'throw', 'number-too-long check')
+    o.fn('readLong', ss[5][1], 'read: number fills the window and the line continues (true = throw '
+         '"number too long for buffer")', 'B', ['ptr', 'bufend', 'keep'])
+    th, el = body_of(ss[6][2]), body_of(ss[6][3]) if ss[6][3] is not None else None
     need(el is not None and len(th) == 2 and len(el) == 1, 'shift if/else')
-    o.fn('readShift', ss[5][1], 'read: `if (ptr != bufend)`', 'B', ['ptr', 'bufend'])
+    o.fn('readShift', ss[6][1], 'read: `if (ptr != bufend)`', 'B', ['ptr', 'bufend'])
     cpy = th[0][1]
     need(th[0][0] == 'expr' and callee(cpy) == 'std::copy' and len(cpy[2]) == 3, 'std::copy')
     o.fn('readCopyFrom', cpy[2][0], 'read: std::copy first', 'N', ['ptr'])
@@ -448,8 +452,11 @@ def main(out_path):
          ['eof0', 'peek'])
     o.fn('skipLoop', ss[1][1], 'skip_comments: outer loop condition', 'B', ['eof0'])
     lb = body_of(ss[1][2])
-    need([s[0] for s in lb] == ['expr', 'if', 'while', 'expr', 'expr'] and callee(lb[0][1]) == 'read_chunk'
-         and body_of(lb[1][2])[0][0] == 'break' and callee(lb[4][1]) == 'next_line', 'skip loop body')
+    need([s[0] for s in lb] == ['expr', 'if', 'while', 'expr', 'expr', 'if'] and callee(lb[0][1]) == 'read_chunk'
+         and body_of(lb[1][2])[0][0] == 'break' and callee(lb[4][1]) == 'next_line'
+         and lb[5][3] is None and body_of(lb[5][2])[0][0] == 'return', 'skip loop body')
+    o.fn('skipAgain', lb[5][1], 'skip_comments: return test after a skipped comment line (eof0 = eofbit '
+         'before the peek)', 'B', ['eof0', 'peek'])
     o.fn('skipBreak', lb[1][1], 'skip_comments: `break` condition (not a comment line)', 'B',
          ['bufidx', 'front'])
     o.fn('skipInner', lb[2][1], 'skip_comments: inner loop condition', 'B', ['keep'])
